@@ -35,6 +35,10 @@ def gen_shift(rng, mode):
     kind, kdim = MODES[mode]
     if mode == "1d":
         return rng.choice([1, 1, 2, -1, 3, -2])
+    if kind == "int" and rng.random() < 0.35:
+        # a SCALAR integer shift / gradient on n-D coordinates: S(k), D(tau, D, k) act along the first axis.  (Not in the
+        # float/kgrid mode: before float coordinates exist S(int) is a plain 1-D shift by that many STATES.)
+        return rng.choice([1, 1, 2, -1, -2])
     while True:
         if kind == "int":
             v = [rng.choice([0, 0, 1, -1, 2, -2]) for _ in range(kdim)]
@@ -54,11 +58,12 @@ def gen_case(rng, quick=True):
     case = {"mode": mode, "kvalue": 1.0, "kgrid": None, "share": rng.random() < 0.75, "twice": rng.random() < 0.5,
             # how the durations reach D(...): python float, numpy scalar, 0-d float ndarray, 1-element float ndarray
             "tau_form": rng.choice(["float", "float", "np.float64", "0d", "0d", "1el"])}
-    if kind == "int":
-        case["kvalue"] = float(rng.choice([5000, 10000, 20000, 40000]))
-    else:
+    kvpool = [5000, 10000, 20000, 40000] if kind == "int" else [1, 1, 2, 4]   # float shifts count multiples of kvalue too (on the grid)
+    case["kvalue"] = float(rng.choice(kvpool))
+    if kdim > 1 and rng.random() < 0.3:
+        case["kvalue"] = [float(rng.choice(kvpool)) for _ in range(kdim)]      # one kvalue per axis (ndarray)
+    if kind == "float":
         case["kgrid"] = KGRID
-        case["kvalue"] = float(rng.choice([1, 1, 2, 4]))      # float shifts count multiples of kvalue too (on the grid)
     dirs = []
     while len(dirs) < rng.randint(1, 3):
         d = gen_shift(rng, mode)
@@ -71,21 +76,31 @@ def gen_case(rng, quick=True):
     gD = [{"tau": rng.choice(taus), "D": rng.choice(Dpool)} for _ in dirs]       # the diffusion operator of each direction
     free = {"op": "D", "tau": float(F(rng.randint(8, 400), 8)), "D": rng.choice(Dpool), "k": None}
 
-    def grad(i, dd):
-        return [{"op": "S", "k": dd[i]}, {"op": "D", "tau": gD[i]["tau"], "D": gD[i]["D"], "k": dd[i]}]
+    Dtens = None
+    while not isinstance(Dtens, list):
+        Dtens = gen_D(rng, kdim)
+    vector_kvalue = isinstance(case["kvalue"], list)
 
     def build(dd):
         r = rng_struct                                  # the structure is drawn once and replayed for ops2
         ops = []
+        nd = False                                      # does the state matrix carry kdim-dimensional coordinates yet?
         for item in r:
             if item[0] == "T":
                 ops.append(rfs[item[1]])
             elif item[0] == "G":
-                ops += grad(item[1], dd)
-            elif item[0] == "F":
-                ops.append(free)
+                i = item[1]
+                Dg = gD[i]["D"]
+                if vector_kvalue and isinstance(dd[i], int) and not nd and isinstance(Dg, float):
+                    # scalar k, scalar D, vector kvalue on still 1-D coordinates: D._apply multiplies the scalar k by the
+                    # whole kvalue vector and raises (recorded by probe_vector_kvalue_1d); a tensor upgrades the coordinates
+                    Dg = Dtens
+                ops += [{"op": "S", "k": dd[i]}, {"op": "D", "tau": gD[i]["tau"], "D": Dg, "k": dd[i]}]
+                nd = nd or not isinstance(dd[i], int) or isinstance(Dg, list)
             else:
-                ops.append({"op": "D", "tau": item[1], "D": item[2], "k": None})
+                sp = free if item[0] == "F" else {"op": "D", "tau": item[1], "D": item[2], "k": None}
+                ops.append(sp)
+                nd = nd or isinstance(sp["D"], list)
         return ops
     rng_struct = []
     if rng.random() < 0.5:      # echo train [exc] + [grad, diff, (free), rf, (free), grad, diff] * n
@@ -148,7 +163,7 @@ def make_op(case, spec, taucache=None):
         return epg.T(spec["alpha"], spec["phi"])
     k = spec["k"]
     if k is not None:
-        k = int(k) if case["mode"] == "1d" else np.array(k, dtype=int if kind == "int" else float)
+        k = int(k) if isinstance(k, int) else np.array(k, dtype=int if kind == "int" else float)
     if spec["op"] == "S":
         return epg.S(k) if case["mode"] == "1d" else epg.S(k, prune=0)
     tau = tauval(case, spec["tau"], {} if taucache is None else taucache)
@@ -201,12 +216,28 @@ class Pool:
         return out
 
 
+def kvalue_arg(case):
+    return np.array(case["kvalue"], dtype=float) if isinstance(case["kvalue"], list) else case["kvalue"]
+
+
+def kvv(case):
+    """kvalue per wavenumber axis"""
+    kdim = MODES[case["mode"]][1]
+    return list(case["kvalue"]) if isinstance(case["kvalue"], list) else [case["kvalue"]] * kdim
+
+
+def kvec(case, k):
+    """a shift / gradient as a kdim-vector: a scalar acts along the first axis"""
+    kdim = MODES[case["mode"]][1]
+    return [k] + [0] * (kdim - 1) if isinstance(k, int) else list(k)
+
+
 def init_sm(case):
     import epgpy as epg
     opts = {}
     if case["kgrid"]:
         opts["kgrid"] = case["kgrid"]
-    return epg.StateMatrix(kvalue=case["kvalue"], **opts)
+    return epg.StateMatrix(kvalue=kvalue_arg(case), **opts)
 
 
 def snap(sm):
@@ -286,17 +317,19 @@ Definition tols : Qc := Q2Qc (1 # 1000000000).
 
 def corr_term(case, d):
     ns = d["pre"].shape[0]
-    kv = case["kvalue"]
+    kd_act = 1 if d["coords"] is None else d["coords"].shape[1]      # wavenumber dimension of the state matrix at this point
+    kvs = qlist(kvv(case)[:kd_act])                                  # kvalue[:kdim]
     if d["coords"] is None:
-        ks = "(ks_of %s (coords1 %d))" % (q(kv), ns)
+        ks = "(ks_ofv %s (coords1 %d))" % (kvs, ns)
     else:
-        ks = "(ks_of %s %s)" % (q(kv), qmat(d["coords"].tolist()))
+        ks = "(ks_ofv %s %s)" % (kvs, qmat(d["coords"].tolist()))
     if d["k"] is None:
         shift = "None"
+    elif isinstance(d["k"], int):
+        # scalar self.k: shift = self.k * kvalue along the first axis only, evaluated by the model in exact rationals
+        shift = "(Some (shift_scalar %s %s))" % (q(float(d["k"])), kvs)
     else:
-        kk = [d["k"]] if case["mode"] == "1d" else list(d["k"])
-        # shift = self.k * sm.kvalue, evaluated by the model in exact rationals
-        shift = "(Some %s)" % core.clist(["(%s * %s)" % (q(float(x)), q(kv)) for x in kk])
+        shift = "(Some (shift_vector %s %s))" % (qlist([float(x) for x in d["k"]]), kvs)
     obsL = core.clist([qmat(m) for m in d["bL"].tolist()])
     obsT = core.clist([qmat(m) for m in d["bT"].tolist()])
     DT = core.clist([core.qi(complex(x)) for x in d["DT"]])
@@ -435,7 +468,7 @@ def bD_quadrature(tau_ms, q1, q2, D):
 def pathway_oracle(case, specs):
     """explicit enumeration: one term per choice of component after each RF pulse; returns {coords tuple: [F+, F-, Z]}"""
     kdim = MODES[case["mode"]][1]
-    kv = case["kvalue"]
+    kv = kvv(case)
     npulse = sum(1 for sp in specs if sp["op"] == "T")
     out = {}
     for path in itertools.product((0, 1, 2), repeat=npulse):
@@ -452,15 +485,15 @@ def pathway_oracle(case, specs):
                 if amp == 0:
                     break
             elif sp["op"] == "S":
-                sh = (sp["k"],) if kdim == 1 else sp["k"]
+                sh = kvec(case, sp["k"])
                 sgn = {0: 1, 1: -1, 2: 0}[c]
                 kprev = k
                 k = tuple(a + sgn * F(b) for a, b in zip(k, sh))
             else:
                 # physical wavenumber of the magnetisation: F-(k) is the conjugate of order -k
                 s = -1 if c == 1 else 1
-                q2 = [s * float(x) * kv for x in k]
-                q1 = q2 if sp["k"] is None else [s * float(x) * kv for x in kprev]
+                q2 = [s * float(x) * v for x, v in zip(k, kv)]
+                q1 = q2 if sp["k"] is None else [s * float(x) * v for x, v in zip(kprev, kv)]
                 amp *= np.exp(-bD_quadrature(sp["tau"], q1, q2, sp["D"]))
         else:
             out.setdefault(k, [0j, 0j, 0j])[c] += amp
@@ -475,7 +508,7 @@ def oracle_disagrees(case, specs, final, coords):
     impl = {}
     g = case["kgrid"]
     if g:       # gridded back-end: stored coordinates are binary64 multiples of the grid step; identify states by grid index
-        ref = {tuple(x * F(case["kvalue"]) / F(g) for x in k): v for k, v in ref.items()}      # wavenumber = coordinate * kvalue
+        ref = {tuple(x * F(v) / F(g) for x, v in zip(k, kvv(case))): a for k, a in ref.items()}      # wavenumber = coordinate * kvalue
         if any(x.denominator != 1 for k in ref for x in k):
             raise RuntimeError("generator produced an off-grid shift")
     # CONTENT per coordinate: rows whose three amplitudes are exactly zero are empty (the gridded / merging back-ends
@@ -488,9 +521,9 @@ def oracle_disagrees(case, specs, final, coords):
         if coords is None:
             key = (F(i - n),) + tuple(F(0) for _ in range(kdim - 1))
         elif g:
-            kvg = case["kvalue"] / g
-            key = tuple(F(round(float(x) * kvg)) for x in coords[i])
-            if max(abs(float(x) * kvg - round(float(x) * kvg)) for x in coords[i]) > 1e-6:
+            onr = [float(x) * v / g for x, v in zip(coords[i], kvv(case))]
+            key = tuple(F(round(x)) for x in onr)
+            if max(abs(x - round(x)) for x in onr) > 1e-6:
                 return "stored coordinate %s of a non-empty state is not on the grid" % (coords[i],)
         else:
             key = tuple(F(float(x)) for x in coords[i])
@@ -516,7 +549,7 @@ def oracle_disagrees(case, specs, final, coords):
 
 def simulate_F0(case, objs):
     import epgpy as epg
-    opts = {"kvalue": case["kvalue"]}
+    opts = {"kvalue": kvalue_arg(case)}
     if case["kgrid"]:
         opts["kgrid"] = case["kgrid"]
     f0, z0 = epg.simulate(list(objs) + [epg.ADC], probe=["F0", "Z0"], **opts)
@@ -616,6 +649,8 @@ def run(ctx):
         reuse["simulate_twice"] += bool(case["twice"])
         ctx.count(case, nontrivial=sig(case)["npulse"] >= 2)
         ctx.sample({"case": sig(case), "kvalue": case["kvalue"], "nops": len(case["ops"])})
+        reuse["vector_kvalue"] = reuse.get("vector_kvalue", 0) + isinstance(case["kvalue"], list)
+        reuse["scalar_k_on_nd_mode"] = reuse.get("scalar_k_on_nd_mode", 0) + (case["mode"] != "1d" and any(isinstance(sp.get("k"), int) for sp in case["ops"]))
         noracle += 1
         # spec oracle: supporting evidence and failing-input search in one
         if problems:
@@ -664,6 +699,8 @@ def run(ctx):
         "the n-D / gridded shift back-ends are NOT modelled here (C04): the correspondence takes the coordinates they produce as input",
         "Coquelicot + Interval libraries; axioms as printed by Print Assumptions (classical reals, functional extensionality, classic)"]
     ctx.notes["tensor_D_before_first_shift"] = probe_fresh_tensor()
+    ctx.notes["scalar_k_on_nd_coordinates"] = witness_scalar_k_nd(ctx)
+    ctx.notes["vector_kvalue_with_1d_scalar_gradient"] = probe_vector_kvalue_1d()
     if not proved and not ctx.violations:
         ctx.report("proof obligations of C05 no longer check: %s" % ctx.failed_obligations,
                    {"theorem_or_correspondence": ctx.failed_obligations}, found_input=False)
@@ -684,7 +721,50 @@ def probe_fresh_tensor():
         return "raises %s: %s" % (type(e).__name__, e)
 
 
+def witness_scalar_k_nd(ctx):
+    """regression witnesses (fixed finding, /repo 24c5294): S(1), D(tau, D, k=1) on a state matrix with 3-D
+    coordinates.  S puts a scalar shift on the first axis; D._apply must integrate the ramp k - (s, 0, 0) -> k, not
+    k - (s, s, s) -> k.  Spin-echo amplitude against exp(-2 tau k^2 Dxx / 3); a mismatch is a violation with this input."""
+    import epgpy as epg
+    kv, tau = 4e4, 10.0
+    Dt = np.diag([1e-3, 2e-3, 3e-3])
+    wit = {"scalar D after a tensor interval": "[T(90,0), D(1.0, diag(1e-3,1e-3,1e-3)), S(1), D(10.0, 1e-3, 1), T(180,0), S(1), D(10.0, 1e-3, 1), ADC]",
+           "tensor D": "[T(90,0), S(1), D(10.0, diag(1e-3,2e-3,3e-3), 1), T(180,0), S(1), D(10.0, diag(1e-3,2e-3,3e-3), 1), ADC]"}
+    seqs = {"scalar D after a tensor interval": [epg.T(90, 0), epg.D(1.0, np.diag([1e-3, 1e-3, 1e-3])), epg.S(1), epg.D(tau, 1e-3, 1), epg.T(180, 0), epg.S(1), epg.D(tau, 1e-3, 1), epg.ADC],
+            "tensor D": [epg.T(90, 0), epg.S(1), epg.D(tau, Dt, 1), epg.T(180, 0), epg.S(1), epg.D(tau, Dt, 1), epg.ADC]}
+    exp = float(np.exp(-2 * tau * 1e-3 * (kv * 1e-3) ** 2 * 1e-3 / 3))
+    out = {}
+    for name, seq in seqs.items():
+        try:
+            got = abs(complex(np.ravel(epg.simulate(seq, kvalue=kv))[0]))
+            ok, desc = abs(got - exp) < 1e-9, "|F0| = %.10f" % got
+        except Exception as e:
+            ok, desc = False, "raises %s: %s" % (type(e).__name__, e)
+        out[name] = {"simulate": desc, "pathway_integral": exp, "agree": bool(ok)}
+        if not ok:
+            ctx.report("scalar gradient k on n-D coordinates (%s): simulate(%s, kvalue=4e4) gives %s, the pathway integral exp(-2 tau k^2 Dxx/3) is %.10f"
+                       % (name, wit[name], desc, exp), {"witness": name, "sequence": wit[name], "kvalue": kv, "expected": exp, "got": desc},
+                       found_input=True, signature={"witness": "scalar_k_on_nd_coordinates"})
+    return out
+
+
+def probe_vector_kvalue_1d():
+    """record (reported to the lead, not judged): kvalue given per axis but only 1-D scalar shifts used, scalar D with a
+    scalar k: D._apply multiplies the scalar k by the whole kvalue vector while sm.k uses kvalue[:1]"""
+    import epgpy as epg
+    try:
+        epg.simulate([epg.T(90, 0), epg.S(2), epg.D(10.0, 1e-3, 2), epg.ADC], kvalue=np.array([1e4, 2e4, 4e4]))
+        return "accepted"
+    except Exception as e:
+        return "raises %s: %s" % (type(e).__name__, e)
+
+
 def replay(ctx, rp):
+    if "witness" in rp:
+        out = witness_scalar_k_nd(ctx)
+        bad = [k for k, v in out.items() if not v["agree"]]
+        print("replay:", ("witnesses failing: %s %s" % (bad, [out[k]["simulate"] for k in bad])) if bad else "witnesses agree with the pathway integral")
+        return 1 if bad else 0
     if "case" in rp:
         case = rp["case"]
         try:
